@@ -715,7 +715,7 @@ func ruleC08Kind(e *Env, rule string) {
 		return
 	}
 	site := flow.FnName(fn)
-	ev := &pred.Evaluator{Prog: e.P.SSA, Oracle: noOracle{}}
+	ev := &pred.Evaluator{Prog: e.P.SSA, GlobalInit: e.globalTables(), Oracle: noOracle{}}
 	out, err := ev.Eval(fn, []pred.Val{pred.Sym{Name: "value"}})
 	switch {
 	case err != nil:
